@@ -560,13 +560,22 @@ func genSpec(seed uint64, cold bool, opOnly bool, tier string) *RunSpec {
 		if k1 == kCompound || k1 == kXR {
 			k1 = r.intn(kXR)
 		}
-		shared := g.newObj(k1, false, true)
-		seedA, seedB := r.u64(), r.u64()
+		// soak objects are called hundreds of times: keep them small (no rtcp code runs here, only struct literals)
+		smallSeed := func(kind int) uint64 {
+			for try := 0; ; try++ {
+				sd := r.u64()
+				if try >= 20 || len(dumpSem(genPacket(kind, sd), false)) < 6000 {
+					return sd
+				}
+			}
+		}
+		shared := g.newObjSeed(k1, smallSeed(k1), false, true)
+		seedA, seedB := smallSeed(k1), smallSeed(k2)
 		for t := 0; t < n; t++ {
 			a := g.newObjSeed(k1, seedA, false, false)
 			b := g.newObjSeed(k2, seedB, false, false)
 			if t%2 == 1 {
-				a = g.newObj(k1, false, false) // a different value of the same kind
+				a = g.newObjSeed(k1, smallSeed(k1), false, false) // a different value of the same kind
 			}
 			var lastBytes int = -1
 			for c := 0; c < calls; c++ {
